@@ -387,6 +387,10 @@ class World(object):
         self.strict = True
         self.observer = None
         self.corrupted = {}       # corrupted ciphertext bytes -> original bytes
+        self.hidden_keys = {}     # opt-in (C17): jid -> "empty" | "bare" | "stripped": the key directory answers
+                                  # get-keys for that jid WITHOUT an identity (jid left out of <list/>, a <user jid/>
+                                  # node with no children, a <user> node with everything but <identity>); empty =
+                                  # the server double behaves exactly as before
         for a in self.accounts:
             d = a.profile_dir()
             if os.path.isdir(d):
@@ -447,7 +451,11 @@ class World(object):
         users = []
         for u in node.getChild("key").getAllChildren("user"):
             ent = self.directory.get(u["jid"])
-            if ent is None:
+            shape = self.hidden_keys.get(u["jid"]) if self.hidden_keys else None
+            if ent is None or shape == "empty":
+                continue
+            if shape == "bare":
+                users.append(N("user", {"jid": u["jid"]}))
                 continue
             ch = [N("registration", data=ent["registration"]), N("type", data=ent["type"]),
                   N("identity", data=ent["identity"]),
@@ -456,6 +464,8 @@ class World(object):
             if ent["keys"]:
                 kid, kval = ent["keys"].pop(0)
                 ch.append(N("key", {}, [N("id", data=kid), N("value", data=kval)]))
+            if shape == "stripped":
+                ch = [c for c in ch if c.tag != "identity"]
             users.append(N("user", {"jid": u["jid"]}, ch))
         return N("iq", {"type": "result", "id": node["id"], "from": SERVER}, [N("list", {}, users)])
 
